@@ -115,7 +115,7 @@ def run_case(case: Dict) -> CaseResult:
 
     def after_reset(i, op, obs, info):
         osp, asp = env.observation_space, env.action_space
-        if st["obs_space"] is not None:
+        if st["obs_space"] is not None and not case.get("vary_obs"):  # space equality is stated for constant scenarios
             if osp != st["obs_space"]:
                 res.violate("obs-space-changed-between-episodes", f"op#{i}")
             if asp != st["act_space"]:
@@ -138,11 +138,29 @@ def run_case(case: Dict) -> CaseResult:
     return res
 
 
+@__import__("hypothesis").strategies.composite
+def varying_folder_case(draw):
+    from hypothesis import strategies as st_
+
+    c = draw(gen_case_strategy(max_ops=6))
+
+    def mk(t):
+        k, a = t
+        return ["reset", None] if k < 4 else ["step", a]
+
+    ops = draw(st_.lists(st_.tuples(st_.integers(0, 9), st_.integers(0, 10 ** 6)).map(mk), min_size=6, max_size=20))
+    return {"src": "genfolder", "spec": c["spec"], "n_variants": draw(st_.integers(2, 3)), "vary_obs": True,
+            "ops": [["reset", None], ["step", 0]] + ops}
+
+
 def worker(ctx: Ctx):
     paths = usable_shipped()
     q = ctx.tier == "quick"
     hyp_run(ctx, gen_case_strategy(max_ops=30), run_case, 35 if q else 600, sub=0)
     hyp_run(ctx, shipped_case_strategy(paths, max_ops=25), run_case, 10 if q else 200, sub=1)
+    # non-constant scenarios: an episode-scheduled folder whose episodes declare different observation spaces; every
+    # observation must be in the space the environment declares AT THAT TIME (env.observation_space is read every call)
+    hyp_run(ctx, varying_folder_case(), run_case, 3 if q else 40, sub=3)
     try:
         from . import c02_components
 
